@@ -132,14 +132,44 @@ def _observe(case):
         origin = scene["L"] * scale if scene["circ"] else None
     except Exception as err:  # pylint: disable=broad-except
         res = [{"exc": "setup:" + type(err).__name__, "met": False, "matches": []} for _ in scene["locs"]]
-        return {"id": case["id"], "op": "detect", "tree": tree, "scene": scene, "res": res}
+        return {"id": case["id"], "op": "detect", "tree": tree, "scene": scene, "res": res, "pipe": res}
     for idx in range(len(scene["locs"])):
         try:
             out = rule.detect(R.gene_name(idx), feats, hits, circular_origin=origin)
             res.append({"exc": "", "met": bool(out.met), "matches": sorted(out.matches)})
         except Exception as err:  # pylint: disable=broad-except
             res.append({"exc": type(err).__name__, "met": False, "matches": []})
-    return {"id": case["id"], "op": "detect", "tree": tree, "scene": scene, "res": res}
+    # the same question as the pipeline asks it: apply_cluster_rules on a real record hands each gene that has hits, with
+    # the neighbours it has gathered for the rule's cutoff, to the rule; what the rule answered there is recorded
+    # (genes without hits are not asked: their entry repeats the direct answer)
+    pipe = [dict(entry) for entry in res]
+    try:
+        from .. import detect as D
+        from antismash.common.hmm_rule_parser import cluster_prediction
+        from antismash.common.secmet.errors import SecmetInvalidInputError
+        try:
+            record = D.make_record(scene, scale)
+        except SecmetInvalidInputError:
+            # (two genes of the scene at exactly the same place: no record holds such a pair)
+            return {"id": case["id"], "op": "detect", "tree": tree, "scene": scene, "res": res, "pipe": res}
+        asked = {}
+        real_detect = rule.detect
+
+        def recording(cds_name, *args, **kwargs):
+            out = real_detect(cds_name, *args, **kwargs)
+            asked[cds_name] = {"exc": "", "met": bool(out.met), "matches": sorted(out.matches)}
+            return out
+        rule.detect = recording
+        try:
+            cluster_prediction.apply_cluster_rules(record, hits, [rule])
+        finally:
+            rule.detect = real_detect
+        for idx in range(len(scene["locs"])):
+            if scene["hits"][idx]:
+                pipe[idx] = asked.get(R.gene_name(idx), {"exc": "NotAsked", "met": False, "matches": []})
+    except Exception as err:  # pylint: disable=broad-except
+        pipe = [{"exc": type(err).__name__, "met": False, "matches": []} for _ in scene["locs"]]
+    return {"id": case["id"], "op": "detect", "tree": tree, "scene": scene, "res": res, "pipe": pipe}
 
 
 def _observe_many(cases):
@@ -218,7 +248,8 @@ def run(ctx):
         if _nontrivial(case):
             ctx.nontrivial_case(case["id"])
         entry = {"op": "detect", "input": {"tree": case["tree"], "scene": case["scene"], "scale": case["scale"]},
-                 "call": _call_text(case), "observed": event["res"], "features": _features(case), "sampled": case["sampled"]}
+                 "call": _call_text(case), "observed": {"direct": event["res"], "through_apply_cluster_rules": event["pipe"]},
+                 "features": _features(case), "sampled": case["sampled"]}
         if case["id"] in (0, enumerated // 2, len(cases) - 1):
             samples[case["id"]] = {"rule": entry["call"][:200], "scene": case["scene"], "observed": event["res"]}
         return entry
